@@ -30,20 +30,19 @@ func (s codecSite) String() string {
 func codecRule(c *Ctx, rule string) {
 	var sites []codecSite
 	prefixLen := int64(1)
-	if g := c.a.KeyValue; g != nil {
-		if init := g.Pkg.Func("init"); init != nil {
-			allInstrs(init, func(i ssa.Instruction) {
-				if st, ok := i.(*ssa.Store); ok && st.Addr == ssa.Value(g) {
-					if sl, ok := st.Val.(*ssa.Slice); ok {
-						if al, ok := sl.X.(*ssa.Alloc); ok {
-							if n, ok := arrayLen(al.Type()); ok {
-								prefixLen = n
-							}
-						}
-					}
-				}
-			})
+	if n, ok := globalSliceLen(c, c.a.KeyValue); ok {
+		prefixLen = n
+	}
+	offUnknown := map[*ssa.Call]bool{}
+	offsetOf := func(call *ssa.Call, v ssa.Value) int64 {
+		if v == nil {
+			return 0
 		}
+		if k, ok := intValue(c, v); ok {
+			return k
+		}
+		offUnknown[call] = true
+		return 0
 	}
 	for _, fn := range c.w.ModFuncs {
 		if c.w.pkgPathOf(fn) != pkgRoot {
@@ -89,7 +88,7 @@ func codecRule(c *Ctx, rule string) {
 				buf := args[len(args)-2]
 				arr := sliceArray(buf)
 				if sl, ok := buf.(*ssa.Slice); ok && sl.Low != nil {
-					s.off, _ = constInt(sl.Low)
+					s.off = offsetOf(call, sl.Low)
 				}
 				// how is the array used?
 				allInstrs(fn, func(j ssa.Instruction) {
@@ -115,10 +114,21 @@ func codecRule(c *Ctx, rule string) {
 			case strings.HasPrefix(m, "AppendUint"):
 				s.put = true
 				buf := args[len(args)-2]
-				if prefixedEmpty(c, buf) {
+				switch {
+				case prefixedEmpty(c, buf):
 					s.kind = "value"
 					s.off = prefixLen
-				} else {
+				case emptyBytes(buf):
+					// an encoding of its own: which record is it stored as?
+					switch arg, kk := flowsToPut(c, call, 0); {
+					case arg == 2 && kk == "rows":
+						s.kind = "rows"
+					case arg == 1:
+						s.kind = "temp"
+					default:
+						return
+					}
+				default:
 					return // appends to other byte strings (e.g. hashing input of cache keys) are not on-disk records
 				}
 			case strings.HasPrefix(m, "Uint"):
@@ -127,7 +137,7 @@ func codecRule(c *Ctx, rule string) {
 				if sl, ok := x.(*ssa.Slice); ok {
 					src = sl.X
 					if sl.Low != nil {
-						s.off, _ = constInt(sl.Low)
+						s.off = offsetOf(call, sl.Low)
 					}
 				}
 				if gc, ok := peel(src).(*ssa.Call); ok && calleeName(&gc.Call) == "(*go.etcd.io/bbolt.Bucket).Get" && keyKind(c, gc.Call.Args[1]) == "rows" {
@@ -148,6 +158,9 @@ func codecRule(c *Ctx, rule string) {
 	c.r.Stats["codec_sites"] = len(sites)
 	byKind := map[string][]codecSite{}
 	for _, s := range sites {
+		if offUnknown[s.call] {
+			s.kind = ""
+		}
 		if s.kind == "" {
 			c.r.undecided(rule, fmt.Sprintf("%s: %s", safeFname(s.fn), shortName(calleeName(&s.call.Call))), "a binary encode/decode whose record kind (bitmap key, row counter, temp key) the rule cannot determine", c.w.ipos(s.call))
 			continue
@@ -229,4 +242,134 @@ func firstKey(m map[string]bool) string {
 		return k
 	}
 	return ""
+}
+
+// globalSliceLen: the length of a package-level slice variable that is initialised from a composite literal and never
+// assigned again anywhere in the module.
+func globalSliceLen(c *Ctx, g *ssa.Global) (int64, bool) {
+	if g == nil {
+		return 0, false
+	}
+	n, have := int64(0), false
+	stores := 0
+	for _, fn := range append([]*ssa.Function{g.Pkg.Func("init")}, c.w.ModFuncs...) {
+		if fn == nil {
+			continue
+		}
+		allInstrs(fn, func(i ssa.Instruction) {
+			st, ok := i.(*ssa.Store)
+			if !ok || st.Addr != ssa.Value(g) {
+				return
+			}
+			stores++
+			if sl, ok := st.Val.(*ssa.Slice); ok && sl.Low == nil && sl.High == nil {
+				if al, ok := sl.X.(*ssa.Alloc); ok {
+					if k, ok := arrayLen(al.Type()); ok {
+						n, have = k, true
+					}
+				}
+			}
+		})
+	}
+	return n, have && stores == 1
+}
+
+// intValue: an integer constant, or len() of a package-level slice whose length is fixed (globalSliceLen).
+func intValue(c *Ctx, v ssa.Value) (int64, bool) {
+	if k, ok := constInt(v); ok {
+		return k, true
+	}
+	if call, ok := peelConv(v).(*ssa.Call); ok {
+		if b, ok := call.Call.Value.(*ssa.Builtin); ok && b.Name() == "len" {
+			if ld, ok := peel(call.Call.Args[0]).(*ssa.UnOp); ok {
+				if g, ok := ld.X.(*ssa.Global); ok {
+					return globalSliceLen(c, g)
+				}
+			}
+		}
+	}
+	return 0, false
+}
+
+// emptyBytes: v is an empty byte slice (nil, make([]byte, 0, …), x[:0] of a fresh array).
+func emptyBytes(v ssa.Value) bool {
+	switch x := v.(type) {
+	case *ssa.Const:
+		return x.IsNil()
+	case *ssa.MakeSlice:
+		k, ok := constInt(x.Len)
+		return ok && k == 0
+	case *ssa.Slice:
+		if _, isAlloc := x.X.(*ssa.Alloc); isAlloc && x.High != nil && x.Low == nil {
+			k, ok := constInt(x.High)
+			return ok && k == 0
+		}
+	}
+	return false
+}
+
+// flowsToPut: where do the bytes produced by v end up? Returns the argument index of a bbolt Put that receives them
+// (1 = key, 2 = value) and, for a value, the kind of the key it is stored under. Follows phis, re-slices, and returns of
+// the producing helper into its callers (depth 2).
+func flowsToPut(c *Ctx, v ssa.Value, depth int) (int, string) {
+	seen := map[ssa.Value]bool{}
+	var visit func(v ssa.Value, depth int) (int, string)
+	visit = func(v ssa.Value, depth int) (int, string) {
+		if seen[v] || depth > 2 {
+			return 0, ""
+		}
+		seen[v] = true
+		for _, r := range referrers(v) {
+			switch x := r.(type) {
+			case *ssa.Call:
+				if calleeName(&x.Call) == boltPut {
+					if x.Call.Args[2] == v {
+						return 2, keyKind(c, x.Call.Args[1])
+					}
+					if x.Call.Args[1] == v {
+						return 1, ""
+					}
+				}
+			case *ssa.Phi:
+				if a, k := visit(x, depth); a != 0 {
+					return a, k
+				}
+			case *ssa.Slice:
+				if a, k := visit(x, depth); a != 0 {
+					return a, k
+				}
+			case *ssa.Return:
+				fn := x.Parent()
+				idx := -1
+				for k, rv := range x.Results {
+					if rv == v {
+						idx = k
+					}
+				}
+				if idx < 0 {
+					continue
+				}
+				for _, g := range c.w.ModFuncs {
+					var hit struct {
+						a int
+						k string
+					}
+					allInstrs(g, func(j ssa.Instruction) {
+						call, ok := j.(*ssa.Call)
+						if !ok || calleeFunc(&call.Call) != fn || hit.a != 0 {
+							return
+						}
+						if rv := resultValue(call, idx); rv != nil {
+							hit.a, hit.k = visit(rv, depth+1)
+						}
+					})
+					if hit.a != 0 {
+						return hit.a, hit.k
+					}
+				}
+			}
+		}
+		return 0, ""
+	}
+	return visit(v, depth)
 }
